@@ -1,0 +1,1 @@
+//! Hooks for property C20 (empty unless needed).
